@@ -62,9 +62,7 @@ def s1_space(N: int, entry: int | None = None, max_edges: int | None = None, ske
         for k in range(len(skeleton) - 1):
             cs.append(edge(skeleton[k], skeleton[k + 1]))
     aux = {"N": N, "A": A, "B": B, "e": e}
-    cube_vars = [e, A[0], B[0]] if N >= 4 else [e]
-    if N >= 5:
-        cube_vars = [e, A[0], B[0], A[1], B[1]]
+    cube_vars = [e, A[0], B[0], A[1], B[1]] if N >= 4 else [e, A[0]]
     return z3.And(cs), cube_vars, aux
 
 
